@@ -4,11 +4,12 @@ CONSTANTS
  Options <- OptsAddRm
  MaxProg = 2
  Places = {"same-tag", "cross"}
- FixData = FALSE
- FixWriter = FALSE
- FixAdded = FALSE
- FixTag = FALSE
- FixClose = FALSE
+ FixData = TRUE
+ FixWriter = TRUE
+ FixAdded = TRUE
+ FixTag = TRUE
+ FixClose = TRUE
+ FixDesc = TRUE
  SrcKinds = {"reg", "dir"}
  Fine = FALSE
 SPECIFICATION Spec
